@@ -170,10 +170,8 @@ class Models:
     }
 
     def adt(self, path, ops):
-        p = re.sub(r'::<.*?>(?=::|$)', '', path) if '<' in path else path
-        if '<' in p:
-            # nested generics: strip with a proper scan
-            p = self._strip_generics(path)
+        # generic arguments are stripped with a proper bracket scan (they may contain fn-pointer types, closures and `<impl ..>` paths)
+        p = self._strip_generics(path) if '<' in path else path
         segs = p.split('::')
         if len(segs) >= 2 and segs[-2] in self.STD_ENUMS and segs[-1] in self.STD_ENUMS[segs[-2]]:
             return Enum(segs[-2], self.STD_ENUMS[segs[-2]][segs[-1]], segs[-1], list(ops))
@@ -249,6 +247,12 @@ class Models:
     def map_find(self, m, key):
         """index of the entry whose key equals `key`, or -1 (forks when symbolic)"""
         key = deref(key)
+        if m.kind == 'btree' and m.entries and self.user_ord(key, m.entries[0][0]) is not None:
+            # BTree* lookup is by `Ord::cmp(..) == Equal` of the key type's own impl
+            for i, e in enumerate(m.entries):
+                if self.user_ord(key, e[0]) == 0:
+                    return i
+            return -1
         conds = [val_eq(key, e[0]) for e in m.entries]
         if all(isinstance(c, bool) for c in conds):
             for i, c in enumerate(conds):
@@ -283,14 +287,32 @@ class Models:
             conds.append(z3bool(b_and(*c)))
         return self.ctx.choose(n + 1, conds)
 
+    def user_ord(self, a, b):
+        """Ordering discriminant (-1/0/1) from the crate's own `Ord::cmp` body when the key type has one in the
+        MIR (hand-written or derived), else None. BTree* containers keyed by ommx types are ordered and
+        de-duplicated by that body, not by a structural stand-in."""
+        a, b = deref(a), deref(b)
+        if not (isinstance(a, Agg) and a.ty and isinstance(b, Agg)):
+            return None
+        cache = self.__dict__.setdefault('_user_ord_cache', {})
+        has = cache.get(a.ty)
+        callee = f'<{a.ty} as Ord>::cmp'
+        if has is None:
+            try:
+                has = self.it.resolve(callee, [ref_to(a), ref_to(b)], None)[0] == 'body'
+            except Exception:
+                has = False
+            cache[a.ty] = has
+        if not has:
+            return None
+        r = self.it.call(callee, [ref_to(a), ref_to(b)], None)
+        return deref(r).discr
+
     def key_lt(self, a, b):
         a, b = deref(a), deref(b)
-        if isinstance(a, Agg) and a.ty and ty_head(a.ty) in ('SortedIds', 'BinaryIds'):
-            # hand-written graded order: longer first, then lexicographic
-            xa, xb = self._inner_seq(a), self._inner_seq(b)
-            if len(xa) != len(xb):
-                return len(xb) < len(xa)
-            return val_lt(RVec(xa), RVec(xb))
+        o = self.user_ord(a, b)
+        if o is not None:
+            return o < 0
         return val_lt(a, b)
 
     def _inner_seq(self, a):
@@ -3285,6 +3307,51 @@ class Models:
     def m_Itertools__sorted(self, c, it):
         xs = drain(self._into_iter_value(it))
         return list_iter(self.fork_sort(xs, val_lt))
+
+    def m_Itertools__dedup(self, c, it):
+        out = []
+        for x in drain(self._into_iter_value(it)):
+            if out and self.ctx.branch(val_eq(deref(out[-1]), deref(x))):
+                continue
+            out.append(x)
+        return list_iter(out)
+
+    def m_Itertools__unique(self, c, it):
+        out = []
+        for x in drain(self._into_iter_value(it)):
+            if any(self.ctx.branch(val_eq(deref(y), deref(x))) for y in out):
+                continue
+            out.append(x)
+        return list_iter(out)
+
+    def m_Itertools__sorted_unstable(self, c, it):
+        return self.m_Itertools__sorted(c, it)
+
+    def m_Itertools__sorted_by(self, c, it, f):
+        xs = drain(self._into_iter_value(it))
+        return list_iter(self.fork_sort(xs, lambda a, b: self.call_closure(f, ref_to(a), ref_to(b)).discr == -1))
+
+    def m_Itertools__sorted_by_key(self, c, it, f):
+        xs = drain(self._into_iter_value(it))
+        return list_iter(self.fork_sort(xs, lambda a, b: val_lt(self.call_closure(f, ref_to(a)), self.call_closure(f, ref_to(b)))))
+
+    def m_Itertools__collect_vec(self, c, it):
+        return RVec(drain(self._into_iter_value(it)))
+
+    def m_Itertools__all_unique(self, c, it):
+        xs = drain(self._into_iter_value(it))
+        for i in range(len(xs)):
+            for j in range(i):
+                if self.ctx.branch(val_eq(deref(xs[i]), deref(xs[j]))):
+                    return False
+        return True
+
+    def m_Itertools__all_equal(self, c, it):
+        xs = drain(self._into_iter_value(it))
+        for i in range(1, len(xs)):
+            if not self.ctx.branch(val_eq(deref(xs[i]), deref(xs[0]))):
+                return False
+        return True
 
     def m_Extend__extend(self, c, coll, src):
         coll = deref(coll)
